@@ -506,6 +506,10 @@ def judge(ctx, c, r, bad, ntypes):
         if pre != exp_pre:
             rep["rank"], rep["got"], rep["expected"] = q, pre, exp_pre
             viol("prefix", "%srank %d sees %s after sc_shmem_prefix, expected (0, s0, s0+s1, ...) = %s" % (on, q, pre[:12], exp_pre[:12]))
+        if "pre2" in o and pre == exp_pre and decode(d, hb(o["pre2"])) != exp_pre:
+            rep["rank"], rep["got"], rep["expected"] = q, decode(d, hb(o["pre2"])), exp_pre
+            viol("prefix", "%srank %d sees %s after a SECOND sc_shmem_prefix into the same array (filled with 0x5a in between), expected (0, s0, s0+s1, ...) = %s" % (
+                on, q, decode(d, hb(o["pre2"]))[:12], exp_pre[:12]))
         node = grid[q][2] if grid[q] is not None else 0
         if cp != ag:
             rep["rank"], rep["got"], rep["expected"] = q, cp, ag
